@@ -144,6 +144,17 @@ class C05(Check):
     def run_long_gap(self, acc):
         """thread 1 is inside a call while thread 2 runs N complete programs (N*k records), fed through feed_generator: thread 1's
         result must be what it is alone. N chosen so that the gap is 500 .. 40 000 records."""
+        for name, other in (('newthread', 'exec'), ('exec', 'newthread'), ('exec', 'exec')):
+            a = programs(1)[name]
+            solo = run(a)
+            for reps in (5, 17, 40, 300):
+                b = programs(2)[other][:1] * reps          # DATA records only, from another thread
+                merged = a[:1] + b + a[1:]
+                got = run(merged)
+                acc.case(nontrivial=True, transitions=len(merged), state=h64(('gap-data', name, other)), outcome=h64(('gap-data', name, other, reps)))
+                if got[0].get(1) != solo[0].get(1) or any(got[2].get(k) != v for k, v in solo[2].items()):
+                    acc.violation('learned-process-names-depend-on-interleaving:long-gap', {'programs': ['long-gap', name, other, reps], 'schedule': [], 'trunc': None},
+                                  {'foreign_data_records': reps, 'got_names': repr(got[2]), 'solo_names': repr(solo[2])})
         a = programs(1)['nested-syscalls']
         solo_a = run(a)[0]
         for name in ('open+lookup', 'sample', 'exec', 'vmfault'):
